@@ -34,7 +34,8 @@ ASSUMPTIONS = [
 ]
 FLOORS = {"quick": {"calls": 100000, "calls-with-special-values": 50000,
                     "calls-with-boundary-length-values": 3000,
-                    "calls-sized-on-64KiB-multiples": 40, "calls-with-a-write-fault": 1500},
+                    "calls-sized-on-64KiB-multiples": 40, "calls-with-a-write-fault": 1500,
+                    "connect-calls": 1000},
           "thorough": {"calls": 9000000, "calls-with-special-values": 4000000,
                        "calls-with-boundary-length-values": 100000,
                        "calls-sized-on-64KiB-multiples": 4000,
@@ -245,8 +246,46 @@ def judge(op, args, exp, outcome, sent):
     return None
 
 
+def run_connects(rng, res, n):
+    """connect() is one call too: at most one STARTTLS and exactly one AUTHENTICATE exchange
+    go out, whatever the server answers (a refused login is reported, not retried with the
+    credentials under another mechanism)."""
+    impl = ["DIGEST-MD5", "PLAIN", "LOGIN", "OAUTHBEARER"]
+    for _ in range(n):
+        sasl = rng.sample(impl, rng.randint(1, 4))
+        verdict = rng.choice(["ok", "wrong-password", "NO", "BYE"])
+        faults = {"auth-verdict": verdict} if verdict in ("NO", "BYE") else {}
+        starttls = rng.random() < 0.3
+        srv = ms.Server(users={b"user": b"pw" if verdict != "wrong-password" else b"other"},
+                        sasl=sasl, faults=faults, starttls=True)
+        sess = mslab.Session(srv)
+        out = sess.call("connect", "user", "pw", starttls=starttls,
+                        authmech=rng.choice([None, None, "X-UNKNOWN", rng.choice(sasl)]))
+        attempts = [e for e in srv.log if e[0] == "auth-attempt"]
+        ntls = sum(1 for c in srv.commands if c[1] == "STARTTLS")
+        res.count("calls")
+        res.count("connect-calls")
+        res.case(repr(("connect", sasl, verdict, starttls, res.counters.get("connect-calls"))))
+        bad = None
+        if len(attempts) != 1:
+            bad = ("authenticate-exchanges:%d" % len(attempts), repr([a[1] for a in attempts]))
+        elif ntls != (1 if starttls else 0):
+            bad = ("starttls-commands:%d" % ntls, "-")
+        elif srv.violations:
+            bad = ("malformed-during-connect", srv.violations[0][:80])
+        elif verdict != "ok" and out == ("ret", True):
+            bad = ("refused-login-reported-as-success", verdict)
+        res.monitor("one-wellformed-command", bad is not None)
+        if bad:
+            res.violation({"defect": bad[0], "trigger": "connect:" + verdict},
+                          {"op": "connect", "announced": sasl, "server_verdict": verdict,
+                           "starttls": starttls, "outcome": repr(out)[:100],
+                           "sent": sess.wire.sent()[:300], "detail": bad[1]})
+
+
 def run_shard(tier, shard, res: Result):
     rng = random.Random(shard["rs"])
+    run_connects(random.Random(shard["rs"] + 1), res, max(50, shard["n"] // 100))
     sess = None
     for i in range(shard["n"]):
         op, args, exp = make_call(rng)
